@@ -37,7 +37,8 @@ _ID = {}
 def _ident():
     if not _ID:
         from harness.refacc import accessory as A
-        _ID["i"] = A.Identity(seed=bytes(range(32)))
+        # an identifier with lower-case letters: the returned record must carry it byte for byte
+        _ID["i"] = A.Identity(acc_id="c8:7f:54:aa:0b:e1", seed=bytes(range(32)))
     return _ID["i"]
 
 
@@ -53,7 +54,11 @@ def run_job(job):
         from harness.refacc import accessory as A
         frng = random.Random(job["fresh"])
         pin = "%03d-%02d-%03d" % (frng.randrange(1000), frng.randrange(100), frng.randrange(1000))
-        ident = A.Identity(acc_id=":".join("%02X" % frng.randrange(256) for _ in range(6)), setup_code=pin)
+        style = frng.randrange(4)        # accessory identifiers: upper-case MAC, lower-case MAC, mixed case, free text
+        mac = ["%02x" % frng.randrange(256) for _ in range(6)]
+        acc_id = {0: ":".join(mac).upper(), 1: ":".join(mac), 2: ":".join(m.upper() if i % 2 else m for i, m in enumerate(mac)),
+                  3: "Bridge-" + "".join(mac[:3])}[style]
+        ident = A.Identity(acc_id=acc_id, setup_code=pin)
         ios_id = "%08x-%04x-%04x-%04x-%012x" % (frng.getrandbits(32), frng.getrandbits(16), frng.getrandbits(16),
                                                  frng.getrandbits(16), frng.getrandbits(48))
     world = K.PSWorld(ident)
@@ -104,6 +109,9 @@ def run_job(job):
         res["observed"] = "machinery"
         res["exc"] = f"M1 never arrived ({o!r})"
         return res
+    if world.degenerate:
+        res["degenerate"] = True
+        return res
     pr = res["problems"]
     if o.ok:
         rec = o.value
@@ -131,6 +139,11 @@ def run_job(job):
                 pr.append("the controller key the accessory stored differs from the returned iOSDeviceLTPK")
         if tr in ("gen", "ble", "blefrag") and rec.get("iOSPairingId") != ios_id:
             pr.append("returned iOSPairingId is not the one the caller supplied")
+        if not pr and case["honest"]:
+            # the record is usable: pair-verify with it against the same reference accessory succeeds
+            v = D.gen_pair_verify(D.ScriptedAccessory(ident=ident), dict(rec))
+            if not v.ok:
+                pr.append(f"pair-verify with the returned record against the accessory just paired fails ({v.exc!r})")
         if tr == "ip":
             if rec.get("AccessoryIP") != "10.0.0.1" or rec.get("AccessoryIPs") != ["10.0.0.1"] or rec.get("AccessoryPort") != 51826 \
                     or rec.get("Connection") != "IP":
@@ -281,6 +294,9 @@ def run(ctx):
             c = j["case"]
             if res["observed"] == "machinery":
                 raise MachineryError(f"{_short(c, j)}: {res['exc']}")
+            if res.get("degenerate"):            # e.g. a front truncation that only removed zero bytes (p = 2^-8 per byte)
+                ctx.notes["degenerate_concretisations_skipped"] = ctx.notes.get("degenerate_concretisations_skipped", 0) + 1
+                continue
             ctx.case((json.dumps([c["m2"], c["m4"], c["m6"]], sort_keys=True), j["tr"], str(j.get("how")), j.get("cut_bytes"))
                      if not c["honest"] else None)
             bad = []
